@@ -23,6 +23,23 @@ CHECKS = {
     ),
 }
 
+CHECKS["C11"] = dict(
+    technique="TLA+ state machine (Generator.tla: ideal settings + code-shaped hidden state in two seed-identity copies) model-checked with TLC; TLC behaviours replayed twice on real SRF objects",
+    text="TLC explores every history of calls, in-place model changes, model re-assignment and generator setters over finite domains and checks that each derived datum used by a call "
+         "was computed from the settings in force (Coherent) and that seed object identity is unobservable (self-composition). Behaviours from the state graph and from simulation are replayed on "
+         "RandMeth / IncomprRandMeth / Fourier: every call must agree with a freshly built SRF of the same settings, with permuted / subset / batched / structured / meshio evaluations, and bitwise between "
+         "runs with shared and fresh seed objects (incl. nugget noise). The quantifier is over histories: model checking closes it on the abstraction, replay binds it to the code.",
+    design_ref="DESIGN.md §4.4, §5 C11",
+    note="trusted: TLC; reference values are produced by freshly constructed gstools objects (the property's own oracle, exposes history dependence only); value lattice of 2 values per parameter; `sampling` not modelled",
+)
+CHECKS["C17"] = dict(
+    technique="TLA+ invariant Periodic/Coherent on Generator.tla (Fourier part) checked with TLC over all update histories; replay on SRF(generator='Fourier') with off-grid periodicity probes",
+    text="The phase change of every mode under a shift by the period along a main axis is a multiple of 2 pi iff the mode mesh was built from the period and anisotropy in force; TLC checks this provenance invariant "
+         "over all histories of period / mode_no / model updates; replayed behaviours evaluate f(x) and f(x + period_d * main_axis_d) at off-grid points after every call and compare with fresh generators.",
+    design_ref="DESIGN.md §4.4, §5 C17",
+    note="trusted: TLC; CovModel.main_axes() for the direction of the rotated axes (checked separately under C12); tolerance 1e-9*sqrt(var)",
+)
+
 ALL = ["C%02d" % i for i in range(1, 21)]
 
 
